@@ -168,6 +168,23 @@ def t_structure(eng):
     eng.oblige(P + '/Mininec.near_field_iter/yields-the-columns-of-near_field_coord-in-order',
                'forainself.near_field_coord.T:yielda' in txt.replace('"', '').split('"""')[-1]
                or txt.endswith('forainself.near_field_coord.T:yielda'))
+    # far field: the angle arrays and direction vectors are computed from the arguments of THIS call, unconditionally
+    g = eng.get_fnode('Mininec.compute_far_field')
+    top = {}
+    for st in g.body:
+        if isinstance(st, ast.Assign):
+            for t in st.targets:
+                for nm in ([t] if isinstance(t, ast.Name) else (t.elts if isinstance(t, ast.Tuple) else [])):
+                    if isinstance(nm, ast.Name):
+                        top[nm.id] = ast.unparse(st.value).replace(' ', '')
+    need = {'acs': 'azimuth_angle.angle_rad()', 'zcs': 'zenith_angle.angle_rad()', 'zen_d': 'zenith_angle.angle_deg()',
+            'azi_d': 'azimuth_angle.angle_deg()', 'rvec': 'zcs_m'}
+    missing = [k for k, v in need.items() if k not in top or v not in top[k]]
+    eng.oblige(P + '/compute_far_field[angle grid]/angles-and-directions-recomputed-from-the-arguments-of-every-call', not missing,
+               detail=str(missing))
+    ffp = [x for x in ast.walk(g) if isinstance(x, ast.Call) and ast.unparse(x.func) == 'Far_Field_Pattern']
+    eng.oblige(P + '/compute_far_field[angle grid]/the-pattern-is-built-from-these-grids',
+               len(ffp) == 1 and [ast.unparse(a) for a in ffp[0].args[:2]] == ['azi_d', 'zen_d'])
     eng.cover('structure')
 
 
